@@ -169,6 +169,29 @@ fn containers(out: &mut Out, rng: &mut Rng, thorough: bool) {
                 differ(out, "sign", "locked", &reference, &r, rp.clone());
             }
         }
+        // ---- the same resize script on Vec, HeapBytes and LockedBytes: same length, same bytes, same digest
+        #[cfg(feature = "nightly")]
+        {
+            use dryoc::protected::*;
+            let start = [1usize, 64, 4097, 300][round % 4];
+            let script: Vec<usize> = vec![start, start / 2, start + 4096 + 1, 3, 0, 17];
+            let fill = |k: usize| -> u8 { (k as u8).wrapping_mul(31).wrapping_add(round as u8) };
+            let mut v: Vec<u8> = vec![];
+            let mut h = HeapBytes::default();
+            let mut l = HeapBytes::new_locked().unwrap();
+            for (step, &n) in script.iter().enumerate() {
+                let old = v.len();
+                v.resize(n, 0); h.resize(n, 0); l.resize(n, 0);
+                for k in old..n { v[k] = fill(k); h.as_mut_slice()[k] = fill(k); l.as_mut_slice()[k] = fill(k); }
+                out.search_evaluations += 2;
+                let rp2 = json!({"op":"containers.resize-script","script":script,"step":step});
+                if h.as_slice() != &v[..] { out.hit("containers.differ.resize.heap", format!("step {} (resize to {}): HeapBytes has {} bytes, Vec {}", step, n, h.len(), v.len()), rp2.clone()); }
+                if l.as_slice() != &v[..] { out.hit("containers.differ.resize.locked", format!("step {} (resize to {}): LockedBytes has {} bytes, Vec {}", step, n, l.len(), v.len()), rp2.clone()); }
+                let dv = crate::c07::d_generichash(32, &v, None);
+                let dl = guard(|| dryoc::generichash::GenericHash::<32, 32>::hash_to_vec::<_, StackByteArray<32>>(&l, None));
+                if dv != dl { out.hit("containers.differ.resize.locked-digest", format!("step {}", step), rp2.clone()); }
+            }
+        }
         // ---- password hashing through Vec / locked containers
         if round < 2 {
             use dryoc::pwhash::{Config, PwHash, VecPwHash};
